@@ -413,6 +413,37 @@ def rule_r5(ck, prog, rule='C17.R5'):
         for pr in probes:
             got |= seen.get(pr, set())
         ok = got == want and len(got) == 1
+        if not got or not all(isinstance(x, bool) for x in got):
+            # the flag may be computed by a helper from the instrument type: fold the helper with its parameter pinned to this type
+            from .common import once_init
+            folded = set()
+            for pr in probes:
+                cn = once_init(fe, pr)
+                h = prog.funcs.get(cn.get('ck')) if cn['k'] == 'call' else None
+                if h is None or len(h.params) != 1 or 'InstrumentType' not in h.params[0]['t'] or \
+                        not (cn.get('args') and access_path(fe, cn['args'][0])[-1:] == ('type_',)):
+                    folded = None
+                    break
+                gh = Graph(prog, h, inline=None, sync_lambdas=False)
+                hsw = [b['t']['cnd'] for b in h.blocks if b.get('t') and b['t']['k'] == 'SwitchStmt' and strip_casts(h, b['t']['cnd']).get('id') == h.params[0]['id']]
+                hp = {}
+                for n in h.nodes:
+                    c = comparison(h, n['i'])
+                    if c and c[0] in ('==', '!='):
+                        l, r = strip_casts(h, c[1]), strip_casts(h, c[2])
+                        if r.get('id') == h.params[0]['id']:
+                            l, r = r, l
+                        if l.get('id') == h.params[0]['id'] and r.get('sk') == 'enum':
+                            hp[n['i']] = (r['v'] == v) if c[0] == '==' else (r['v'] != v)
+                hrets, _s = explore_pinned(gh, hp, {c_: v for c_ in hsw})
+                folded |= {val for (_ri, val, _env) in hrets}
+            if folded and all(isinstance(x, bool) for x in folded):
+                got = folded
+                ok = got == want and len(got) == 1
+        if not got or not all(isinstance(x, bool) for x in got):
+            # the flag is not a constant on the pinned paths: not decided here
+            ck.inconclusive(rule, fe, 'explicit-sum-monotonicity:%s' % name, sums[0], 'the monotonicity flag of the explicit sum does not fold to a constant under the pinned instrument type (computed by a helper?)')
+            continue
         ck.verdict(ok, rule, fe, 'explicit-sum-monotonicity:%s' % name, sums[0],
                    'explicit Sum view on %s: is_monotonic=%s, as the default selection' % (name, sorted(got, key=str)) if ok else
                    'an explicit Sum view on %s creates a %s sum, the default selection a %s one: a monotonic sum ignores negative values, so a total below zero is never reported' %
